@@ -591,3 +591,58 @@ func (c *Ctx) onlyCalledFrom(g *ssa.Function, allowed func(*ssa.Function) bool) 
 	}
 	return ok(g, 0)
 }
+
+// behindEdgesDeep is behindEdges for code that an extract-method refactoring may have moved: the B-sites are looked
+// for in fn and, through static calls, in helpers of fn's package (two levels). A helper call that itself lies
+// behind the edges in the caller discharges the helper's sites; otherwise the same obligation is evaluated inside
+// the helper with the edges pick selects there. pick must not depend on values of one particular function.
+func (c *Ctx) behindEdgesDeep(rule, key string, fn *ssa.Function, pick func(f core.Fact, ifi *ssa.If) (bool, int), isB InstrPred, edgeName, bName string) int {
+	seen := map[*ssa.Function]bool{}
+	var walk func(f *ssa.Function, d int) int
+	contains := func(h *ssa.Function) bool {
+		for _, rf := range c.regionOf(h, 2) {
+			if len(sites(rf.fn, isB)) > 0 {
+				return true
+			}
+		}
+		return false
+	}
+	walk = func(f *ssa.Function, d int) int {
+		if f == nil || seen[f] {
+			return 0
+		}
+		seen[f] = true
+		name := key
+		if f != fn {
+			name = key + "/" + f.Name()
+		}
+		es := condEdges(f, pick)
+		n := 0
+		if len(sites(f, isB)) > 0 {
+			n += c.behindEdges(rule, name, f, es, isB, edgeName, bName)
+		}
+		if d >= 2 {
+			return n
+		}
+		outer := core.Reach([]core.Point{core.EntryOf(f)}, nil, core.CutOf(es))
+		for _, cf := range core.WithClosures(f) {
+			for _, call := range core.Calls(cf) {
+				h := core.StaticCallee(call)
+				if h == nil || h == f || len(h.Blocks) == 0 || h.Parent() != nil || core.PkgOf(h) != core.PkgOf(fn) || seen[h] || !contains(h) {
+					continue
+				}
+				if cf == f && es.Len() > 0 && !outer.Has(call) {
+					seen[h] = true
+					for _, rf := range c.regionOf(h, 2) {
+						n += len(sites(rf.fn, isB))
+					}
+					c.R.OK(rule, fmt.Sprintf("%s: %s behind %s", name, h.Name(), edgeName), c.P.Pos(call.Pos()), "the helper holding the "+bName+" is only called across the edge")
+					continue
+				}
+				n += walk(h, d+1)
+			}
+		}
+		return n
+	}
+	return walk(fn, 0)
+}
